@@ -194,6 +194,7 @@ class SerialSim:
         else:
             self.driver = sermod.DriverSCIRS232("scirs232:/dev/verif-sci")
         self.tasks = []
+        self.delivered = []
         self.connect_task = None
 
     def latency(self, name):
@@ -233,6 +234,7 @@ class SerialSim:
         due, chunk = self.gw.pending.pop(0)
         if due > self.loop.time():
             self.loop.advance(due - self.loop.time())
+        self.delivered.append((self.loop.time(), chunk))
         if split and 0 < split < len(chunk):
             self.loop.call_soon(self.protocol.data_received, chunk[:split])
             self.loop.call_soon(self.protocol.data_received, chunk[split:])
